@@ -239,7 +239,18 @@ fn real_funcs(ctx: &mut Ctx, thorough: bool) {
 /// Seed sweep without a hint in the sharded linear regime: the builder must never allocate more cells than the
 /// largest admissible shard (1% above the average) needs, whatever the seed.
 fn sweep(ctx: &mut Ctx, thorough: bool) {
-    let n = 400_928usize;
+    // choose n so that the largest admissible shard floor(1.01 n / shards) fills its last segment exactly:
+    // one more key in the largest shard then needs one more 512-cell segment per shard, so an accepted
+    // shard above the 1% slack is visible in mem_size
+    let cells = |n: usize, extra: usize| {
+        let mut e = FuseLge3Shards::default();
+        e.set_up_shards(n, 0.001);
+        let s = e.num_shards();
+        e.set_up_graphs(n, ((1.01 * n as f64) / s as f64).floor() as usize + extra);
+        e.num_vertices() * s
+    };
+    let n = (400_000usize..410_000).find(|&n| cells(n, 1) > cells(n, 0)).unwrap_or(400_928);
+    ctx.add("sweep_n", 0);
     for seed in 0..if thorough { 64u64 } else { 32 } {
         for hinted in [false, true] {
             if hinted && seed % 4 != 0 {
